@@ -1532,7 +1532,14 @@ class LineEval:
         return v
 
     def x_SetComp(self, n, ctx):
-        return self._comp(n, ctx)
+        r = self._comp(n, ctx)
+        if isinstance(r, SymList):
+            reads = []
+            _walk_e(r.body, lambda x: reads.append(x) if isinstance(x, E) and x.op in ('i', 'v') else None) if isinstance(r.body, E) else None
+            if reads:
+                self.event('collapse', f'the values read from the copies (`{unparse(n.elt, 50)}`) are collected in a SET: two copies with the same value become one element, '
+                                       'so a sum or count over it loses every amount that happens to equal another copy\'s', n, ctx.rel)
+        return r
 
     def x_DictComp(self, n, ctx):
         rel = ctx.rel
